@@ -86,6 +86,14 @@ func C20(c *Ctx) {
 		}
 		jobs = append(jobs, job{text, nodes})
 	}
+	// fixed texts of the subset that the drawing speller never writes: tokens that touch each other
+	for _, t := range []string{
+		"A <- \"from\"in B\nin <- \"x\"\nn <- \"y\"\nB <- [0-9]id 'k'ix\nid <- \"d\"\nd <- \"e\"\nix <- \"q\"\nx <- \"z\"\n",
+		"A <- \"a\"i\"b\"[c]i[d]'e'i.B*C+D?\nB <- \"x\"\nC <- \"y\"\nD <- \"z\"\n",
+		"A<-b:\"a\"c:B&C!D(B/C)\nB<-\"x\"{return nil,nil}\nC<-\"y\";D<-\"z\"\n",
+	} {
+		jobs = append(jobs, job{t, 8})
+	}
 	rejectedBoot, rejectedBoth, compared := 0, 0, 0
 	parallel(len(jobs), 16, func(i int) {
 		text := []byte(jobs[i].text)
